@@ -80,9 +80,9 @@ type NodeOpts struct {
 	PredistN     int     // number of ring addresses funded at genesis
 	MaxBlockSize int     // MB
 	// GenesisFault > 0: the n-th storage write of the FIRST play of the root block fails; the play is then repeated
-	GenesisFault int `json:",omitempty"`
-	NewAccGas    int64   // new_account_resource_amount
-	NoLog        bool    // do not keep a write log (replicas)
+	GenesisFault int   `json:",omitempty"`
+	NewAccGas    int64 // new_account_resource_amount
+	NoLog        bool  // do not keep a write log (replicas)
 	GasPrice     [4]int64
 	// UtxoCache > 0: capacity of the state machine's output / balance / previous-key caches (ledger.yaml utxo.cachesize,
 	// default 1000 - never reached by a generated history); 1-4 makes every history run at and beyond capacity
@@ -162,8 +162,8 @@ type Node struct {
 	Genesis  []byte
 	// GenesisFaultFired: the injected write error of NodeOpts.GenesisFault hit the first play of the root block
 	GenesisFaultFired bool
-	Root     *pb.InternalBlock
-	closed   bool
+	Root              *pb.InternalBlock
+	closed            bool
 }
 
 func worldDir(conf *xconf.EnvConf) string {
